@@ -310,10 +310,10 @@ def main():
 
     xcheck = []                                    # (case line, extracted model's output) pairs re-evaluated inside Coq
 
-    def both(lines, label):
-        io = vf.run_impl(impl, "C18", lines, deadline_ms=2000)
+    def both(lines, label, deadline_ms=2000):
+        io = vf.run_impl(impl, "C18", lines, deadline_ms=deadline_ms)
         for i, o in enumerate(io):                 # a reported hang must survive a generous deadline on its own (loaded machine)
-            if o.split()[:1] == ["2"]:
+            if o.split()[:1] == ["2"] and deadline_ms < 20000:
                 io[i] = vf.run_impl(impl, "C18", [lines[i]], deadline_ms=20000)[0]
                 if io[i].split()[:1] != ["2"]:
                     c.cov.setdefault("deadline_retries", []).append(lines[i])
@@ -822,6 +822,147 @@ def main():
         expect("types.CstrTokenR", "tokenr-ref", ln, r, [0, len(f)] + f + rest, "(first = bytes before the first NUL/separator, rest = bytes after it)")
     c.sample({"op": "Cstrcmp", "a": repr(bytes(pairs[-3][0])), "b": repr(bytes(pairs[-3][1])), "sign": sgn(ref_strcmp(cprefix(pairs[-3][0]), cprefix(pairs[-3][1])))})
 
+
+    # ------------------------------------------------------------------ the surroundings of a call, 1: len < cap
+    # Every helper is called on buf[:n] of a LARGER buffer whose bytes behind the input are not zero (a prefix of a
+    # dirty arena, a field of a record): operation 28. It must answer what it answers on a private copy of the input
+    # (same run, exact capacity), and the bytes behind the input must be what they were.
+    NAMES = {1: "types.Cstrlen", 2: "types.CstrToBytes", 3: "types.CstrTolower", 4: "types.CstrToupper", 6: "types.ReadLine", 7: "types.TrimDBCS",
+             8: "cmsys.StringHash", 9: "cmsys.StringHashWithHashBits", 10: "cmsys.fnv", 11: "cmsys.StripBlank", 12: "cmsys.StripNoneBig5",
+             13: "cmsys.StripAnsi", 14: "cmsys.Trim", 15: "cmsys.DBCSSafeTrim", 16: "cmsys.DBCSStatus", 19: "ptt.StripANSIMoveCmd",
+             20: "types.Cstrcmp", 21: "types.Cstrcasecmp", 22: "types.Cstrstr", 23: "types.Cstrcasestr", 24: "types.CstrCaseHasPrefix",
+             25: "types.CstrTokenR", 27: "cmsys.FileFindRecord"}
+    TAILS = [[0x40], [0xA4, 0x40, 99, 100], [ESC, 91, 49, 109, 97], [97, 0, 98], [32, 10, 0xFE], [99, 100], [0x80, 0xA4], [10]]
+    W1 = [(s, t) for s in strings_upto(ALPHA, 2) for t in TAILS] + \
+         [(s, [rng.choice([0x40, 97, 0xA4, ESC, 91, 109, 32, 10, 255, 1]) for _ in range(rng.randrange(1, 9))]) for s in RAND[:1500 if thorough else 300]]
+    wcases = []                                     # (op, [(input, tail)...], [extra groups as text], pre = extra groups BEFORE the buffers)
+    for s, t in W1:
+        for op in (1, 2, 3, 4, 6, 7, 8, 9, 11, 12, 14, 15, 19):
+            wcases.append((op, [(s, t)], [], []))
+        for flag in (0, 1, 2):
+            wcases.append((13, [(s, t)], ["%d" % flag], []))
+        for pos in (len(s) - 1, len(s), len(s) + 1):
+            wcases.append((16, [(s, t)], ["%d" % pos], []))
+        for kind in range(1, 10):
+            wcases.append((10, [(s, t)], ["%d" % rng.choice([FNV32_INIT, 0, 12345]), "%d" % rng.choice([len(s), len(s) + 1, 0])], ["%d" % kind]))
+    WP = strings_upto(PAIR_ALPHA_Q, 2)
+    wpairs = [(a, b) for a in WP for b in WP] + [(a[:20], b[:20]) for a, b in pairs[len(pairs) - (3000 if thorough else 600):]]
+    for a, b in wpairs:
+        ta, tb = rng.choice(TAILS), rng.choice(TAILS)
+        if rng.random() < .3:
+            ta = list(b[len(a):]) + ta if list(b[:len(a)]) == list(a) else ta      # behind a: how b goes on
+        for op in (20, 21, 22, 23, 24, 25):
+            wcases.append((op, [(a, ta), (b, tb)], [], []))
+    wl, el = [], []
+    for op, bufs, extra, pre in wcases:
+        ns = ["-1"] * len(pre) + ["%d" % len(s) for s, _ in bufs]
+        wl.append("|".join(["28", "%d" % op, " ".join(ns)] + pre + [toks(list(s) + list(t)) for s, t in bufs] + extra))
+        el.append("|".join(["%d" % op] + pre + [toks(s) for s, _ in bufs] + extra))
+    wo, eo = both(wl, "helper on buf[:n] of a dirty buffer"), both(el, "the same inputs with exact capacity")
+    n_win = 0
+    for (op, bufs, extra, pre), ln, eln, r, e in zip(wcases, wl, el, wo, eo):
+        name = NAMES[op] + ("(kind %s)" % pre[0] if op == 10 else "")
+        if bad_status(name + " on buf[:n] of a larger buffer", ln, r, "window-crash") or e[0] != 0:
+            continue
+        inner, tails = r[2:2 + r[1]], r[2 + r[1]:]
+        want_t = [x for _, t in bufs for x in t]
+        ins = ", ".join("%s[:%d] (behind it: %s)" % (list(s) + list(t), len(s), list(t)) for s, t in bufs)
+        if inner != e:
+            c.violation("window-reads-past-input", "%s called on %s answers %s, on a private copy of the same %d-byte input it answers %s: the answer depends on bytes behind the input (between len and cap of the slice)"
+                        % (name, ins, inner, len(bufs[0][0]), e), {"cases": [ln, eln], "expected": "0 %d %s %s" % (len(e), toks(e), toks(want_t)), "got": toks(r)})
+        elif tails != want_t:
+            c.violation("window-writes-past-input", "%s called on %s leaves %s behind the input: it wrote outside its argument" % (name, ins, tails),
+                        {"cases": [ln], "expected": "0 %d %s %s" % (len(e), toks(e), toks(want_t)), "got": toks(r)})
+        n_win += 1
+        c.nontrivial(("win", op, tuple(pre), tuple((tuple(s), tuple(t)) for s, t in bufs), tuple(extra)))
+    c.cov["calls_on_a_prefix_of_a_dirty_buffer"] = n_win
+    c.cov["exhaustive_parts"].append("all strings of length <= 2 over the 16-byte alphabet x 8 dirty tails through every unary helper called on buf[:n] (len < cap), all pairs of strings of length <= 2 over %s through the binary helpers" % PAIR_ALPHA_Q)
+    c.sample({"op": "StripNoneBig5(buf[:3])", "buf": [97, 98, 0xA4, 0x40, 99, 100], "expected": [97, 98], "buffer_afterwards": [97, 98, 0, 0x40, 99, 100]})
+
+    # ------------------------------------------------------------------ the surroundings of a call, 2: several goroutines
+    # G goroutines of ONE process call the helpers at the same time (operation 29), each with its own arguments, for a
+    # fixed number of rounds; every distinct answer a call gave is reported and must satisfy the helper's reference.
+    def conc_want(op, g):
+        """None if `ans` (numbers after the status) is right for the helper called alone on groups g, else the expectation"""
+        a = g[0]
+        if op in (20, 21):
+            fold = lower if op == 21 else (lambda x: x)
+            w = sgn(ref_strcmp([fold(x) for x in cprefix(a)], [fold(x) for x in cprefix(g[1])]))
+            return lambda ans: None if len(ans) == 1 and sgn(ans[0]) == w else "a value of sign %d" % w
+        if op == 3:
+            w = [lower(x) for x in a]
+        elif op == 8:
+            w = [ref_fnv1a(cprefix(a), FNV32_INIT, FNV32_PRIME, 2**32 - 1, upper)]
+        elif op == 23:
+            w = [ref_strstr([lower(x) for x in cprefix(a)], [lower(x) for x in g[1]])]
+        elif op == 24:
+            w = [int([lower(x) for x in cprefix(a)][:len(g[1])] == [lower(x) for x in g[1]])]
+        elif op == 13:
+            w = ref_strip_ansi(list(a), g[1][0])
+        elif op == 12:
+            res = ref_none_big5(a)
+            w = [len(res)] + res + res + ([0] + list(a[len(res) + 1:]) if len(res) < len(a) else [])
+        elif op == 14:
+            w = list(bytes(cprefix(a)).rstrip(b" "))
+        elif op == 27:
+            i = ref_find_record(a, g[1])
+            w = [i, int(i > 0)]
+        else:
+            return lambda ans: None
+        return lambda ans: None if ans == w else toks(w[:40])
+
+    def conc_line(G, rounds, cs):
+        return "|".join(["29", "%d %d" % (G, rounds)] + ["%d %d|%s" % (len(g), op, "|".join(toks(x) for x in g)) for op, g in cs])
+
+    G = 8
+    conc = []                                       # (G, rounds, [(op, groups)])
+    for n, rounds in ((rng.randrange(90, 128), 40000 if thorough else 4000), (16, 3000 if thorough else 150), (2048, 6000 if thorough else 300)):
+        cs = []
+        for w in range(G):                          # goroutine w gets cases w, w+G, ...: its own letters, so that a mixture of two calls is visible
+            lo = [97 + (w * 3 + i) % 26 for i in range(3)]
+            body = [rng.choice(lo) for _ in range(n - 1)]
+            up = [upper(x) for x in body]
+            mix = [upper(x) if rng.random() < .5 else x for x in body]
+            k = rng.randrange(len(body))
+            per = [(21, [up + [65 + w], body + [97 + w]]),                         # equal under strcasecmp
+                   (21, [mix + [66], body + [99]]),                                # smaller, decided by the last byte
+                   (21, [body + [122], up + [65] + [0, 65]]),                      # larger
+                   (20, [body, body[:-1] + [body[-1] + 1]]),
+                   (23, [up + [33], mix[k:] + [33]]),
+                   (24, [mix + [48], up]),
+                   (3, [mix]), (8, [mix]), (14, [body + [32, 32]]),
+                   (13, [body[:n // 2] + [ESC, 91, 49, 59, 51, 49 + w % 8, 109] + up[n // 2:], [1]]),
+                   (12, [body[:n // 2] + [0xA4, 0x40 + w, 0x81, 32] + body[n // 2:]])]
+            if n == 16:                         # ... and a caller built on Cstrcasecmp, on a real file
+                per.append((27, [[103 + w, 10] + up[:40] + [32, 120, 10] + body[:12] + [13, 10], body[:12]]))
+            cs.append(per)
+        conc.append((G, rounds, [cs[w][i] for i in range(len(cs[0])) for w in range(G)]))
+    lines = [conc_line(*x) for x in conc]
+    n_calls = 0
+    for (G_, rounds, cs), ln, r in zip(conc, lines, both(lines, "helpers called by %d goroutines at once" % G, deadline_ms=300000)):
+        if bad_status("helpers called by %d goroutines of one process" % G_, ln, r, "concurrent-calls-crash"):
+            continue
+        i = 2
+        for j, (op, g) in enumerate(cs):
+            d = r[i]; i += 1
+            answers = []
+            for _ in range(d):
+                answers.append(r[i + 1:i + 1 + r[i]]); i += 1 + r[i]
+            chk = conc_want(op, g)
+            bad = [(a, chk(a[1:])) for a in answers if a[:1] != [0] or chk(a[1:]) is not None]
+            if bad or d != 1:
+                alone = "%d|%s" % (op, "|".join(toks(x) for x in g))
+                c.violation("concurrent-calls-" + NAMES[op].split(".")[1].lower(),
+                            "%s(%s) called by goroutine %d of %d running in one process (%d rounds) gave %d distinct answers %s%s; a call must answer what it answers alone whatever other goroutines are doing (replay: the operation-29 line; alone: %s)"
+                            % (NAMES[op], ", ".join(repr(bytes(x[:24])) + ("..." if len(x) > 24 else "") for x in g), j % G_, G_, rounds, d, [a[:12] for a in answers],
+                               ", expected %s" % bad[0][1] if bad else "", alone if len(alone) < 300 else alone[:300] + " ..."),
+                            {"cases": [ln, alone], "expected": "one answer per case, the one of the call alone", "got": toks(r[:400])})
+            c.nontrivial(("conc", op, n_calls, j))
+        n_calls += len(cs) * rounds
+    c.count(n_calls, "calls made while %d goroutines were calling" % G)
+    c.cov["concurrent_calls"] = {"goroutines": G, "calls": n_calls, "helpers": sorted(set(NAMES[op] for _, _, cs in conc for op, _ in cs))}
+    c.sample({"op": "8 goroutines", "each": "Cstrcasecmp(UPPER, lower) == 0 on its own letters, 4000 rounds", "expected": "one answer per call"})
+
     # ------------------------------------------------------------------ coverage-guided fuzzing (thorough tier)
     if thorough:
         import re, shutil
@@ -864,7 +1005,11 @@ def main():
              assumptions=["bufio.Reader.ReadBytes, bytes.Index/IndexByte/HasPrefix/TrimRight and the UTF-8 decoding inside bytes.ToLower are re-specified in Model/C18.v and exercised by the correspondence, not verified",
                           "ReadLine is exercised over in-memory streams; read errors are injected by the driver's own io.Reader (alone, with the last data, through iotest.OneByteReader/HalfReader/DataErrReader) "
                           "and modelled as events handed out once; errors of a real device (EIO/ESTALE from the kernel) are not provoked, they reach bufio through the same Read interface",
-                          "FileFindRecord/FileExistsRecord run on real files of the scratch file system, lines up to 70 000 bytes in the quick tier (300 000 in the thorough tier); a file that cannot be opened is not exercised"])
+                          "FileFindRecord/FileExistsRecord run on real files of the scratch file system, lines up to 70 000 bytes in the quick tier (300 000 in the thorough tier); a file that cannot be opened is not exercised",
+                          "that the helpers share no state between calls running at the same time is validated, not proved: 8 goroutines of one process make a fixed number of calls "
+                          "(no clock is read) and every distinct answer is checked; the Coq model is sequential, C18_concurrent_independent states only what the parallel run is compared with. "
+                          "A shared scratch area shows as a wrong answer with overwhelming, not total, certainty; races that change no answer are not looked for",
+                          "calls on buf[:n] of a larger buffer use tails of 1..8 non-zero bytes directly behind the input"])
 
 
 if __name__ == "__main__":
